@@ -408,8 +408,11 @@ fn occurs_case(ctx: &Ctx, ch: &mut Ch) -> Outcome {
         // One free variable is in scope for the `f` / `b` heads.
         let mut dctx = vec![None];
         let flip = choices[2] % 2 == 1;
-        let ok = if flip { unify(&wrapped, &bare, &mut dctx) } else { unify(&bare, &wrapped, &mut dctx) };
+        // Printed before the call: afterwards the terms may be cyclic. The call terminates on a
+        // correct unifier (the occurs check refuses it), so an abort is a violation.
         let input = format!("unify({}, {}) with hole chain = {chain}", if flip { &wrapped } else { &bare }, if flip { &bare } else { &wrapped });
+        ctx.announce(true, None, &input);
+        let ok = if flip { unify(&wrapped, &bare, &mut dctx) } else { unify(&bare, &wrapped, &mut dctx) };
         if dctx.len() != 1 {
             return Err(Failure::new("unify left the definitions context with a different length", input));
         }
